@@ -33,6 +33,11 @@ theorem NewCopies.trans {src t0 t1 t2 : Mgr} (h1i : Inv t1) (h2i : Inv t2) (e12 
     exact ⟨a, a0, a1, by rw [struct_stable h1i h2i e12 (b + 1) b (by omega) (by omega) h, ha]⟩
   · exact h12 b (by omega) hb2
 
+/-- `k` is in the sub-DAG of `i` that the walker visits (children, transitively) -/
+inductive InDag (s : Mgr) (i : Nid) : Nid → Prop
+  | root : InDag s i i
+  | child {j k : Nid} {c : Content} : InDag s i j → (c, j) ∈ s.formulae → k ∈ c.args → InDag s i k
+
 /-- What one `walk_*` callback must achieve for the source node `(c, i)`, given faithful
     copies `g a` of its children.  `same = true` is the rebuild inside the source manager
     itself (the target then extends the source). -/
@@ -106,9 +111,9 @@ theorem foldMemo_spec {srcs : Nat → Mgr} (k0 : Nat) (same : Bool) (f : Nid →
 /-- **The traversal returns faithful copies** provided every callback does (`RecSpec`) — for
     any faithful memo it starts from, whichever sources filled it. -/
 theorem normAux_spec {srcs : Nat → Mgr} (k0 : Nat) (hsrc : Inv (srcs k0)) (addr : Nid → Nat) (same : Bool)
-    (bound : Nid)
-    (hrec : ∀ c k, (c, k) ∈ (srcs k0).formulae → k ≤ bound → RecSpec (srcs k0) addr same c k) :
-    ∀ (fuel : Nat) (i : Nid), i < fuel → 0 < i → i < (srcs k0).nextId → i ≤ bound →
+    (root : Nid)
+    (hrec : ∀ c k, (c, k) ∈ (srcs k0).formulae → InDag (srcs k0) root k → RecSpec (srcs k0) addr same c k) :
+    ∀ (fuel : Nat) (i : Nid), i < fuel → 0 < i → i < (srcs k0).nextId → InDag (srcs k0) root i →
       ∀ (tgt : Mgr) (memo : Memo), Inv tgt → (same = true → Ext (srcs k0) tgt) → MemoOK srcs tgt memo →
         ∀ r tgt', (normAux (srcs k0) k0 addr fuel i memo).run tgt = (r, tgt') →
           WalkOK srcs k0 tgt tgt' memo r [i] := by
@@ -137,7 +142,7 @@ theorem normAux_spec {srcs : Nat → Mgr} (k0 : Nat) (hsrc : Inv (srcs k0)) (add
         intro a ha
         have ha' : a ∈ c.ids := by simp [Content.ids]; left; simpa using ha
         have hcl := hsrc.closed c i hc a ha'
-        exact ih a (by omega) hcl.1 (by omega) (by omega)
+        exact ih a (by omega) hcl.1 (by omega) (InDag.child hb hc (by simpa using ha))
       cases h1 : (foldMemo (normAux (srcs k0) k0 addr fuel) c.args.reverse memo).run tgt with
       | mk r1 t1 =>
         have w1 := foldMemo_spec k0 same (normAux (srcs k0) k0 addr fuel) c.args.reverse hkids tgt memo ht hsame hm
@@ -199,7 +204,7 @@ theorem normAux_spec {srcs : Nat → Mgr} (k0 : Nat) (hsrc : Inv (srcs k0)) (add
     specification. -/
 theorem normalizeM_spec {srcs : Nat → Mgr} (k0 : Nat) (hsrc : Inv (srcs k0)) (addr : Nid → Nat) (same : Bool)
     {i : Nid} (i0 : 0 < i) (i1 : i < (srcs k0).nextId)
-    (hrec : ∀ c k, (c, k) ∈ (srcs k0).formulae → k ≤ i → RecSpec (srcs k0) addr same c k)
+    (hrec : ∀ c k, (c, k) ∈ (srcs k0).formulae → InDag (srcs k0) i k → RecSpec (srcs k0) addr same c k)
     {tgt : Mgr} (ht : Inv tgt) (hsame : same = true → Ext (srcs k0) tgt) {memo : Memo}
     (hm : MemoOK srcs tgt memo) {r : Except Err (Memo × Nid)} {tgt' : Mgr}
     (hrun : (normalizeM (srcs k0) k0 addr i memo).run tgt = (r, tgt')) :
@@ -209,7 +214,7 @@ theorem normalizeM_spec {srcs : Nat → Mgr} (k0 : Nat) (hsrc : Inv (srcs k0)) (
   rw [Prog.run_bind] at hrun
   cases h1 : (normAux (srcs k0) k0 addr (i + 1) i memo).run tgt with
   | mk r1 t1 =>
-    have w := normAux_spec k0 hsrc addr same i hrec (i + 1) i (by omega) i0 i1 (Nat.le_refl _) tgt memo ht hsame
+    have w := normAux_spec k0 hsrc addr same i hrec (i + 1) i (by omega) i0 i1 InDag.root tgt memo ht hsame
       hm r1 t1 h1
     rw [h1] at hrun
     cases r1 with
